@@ -4,6 +4,7 @@ open Mido
 
 structure DState where
   p : PState := {}
+  mf : MF := {}
 
 def words (line : String) : List String :=
   (line.splitOn " ").filter (· ≠ "")
@@ -95,6 +96,24 @@ def handle (st : DState) (line : String) : DState × String :=
         | some c, some bs => (st, showExcept LFile.show (readFile c (clip == "1") bs))
         | _, _ => (st, "bad-op")
       | _ => (st, "bad-op")
+    | "freset" => ({ st with mf := {} }, "ok")
+    | "fop" =>
+      let run (op : FOp) : DState × String := let (m, o) := fstep st.mf op; ({ st with mf := m }, o.show)
+      match args with
+      | ["addtrack"] => run .addTrack
+      | "appendtrack" :: evs => match evs.mapM parseTEv with
+        | some t => run (.appendTrack t) | none => (st, "bad-op")
+      | ["removetrack", i] => match parseNat? i with | some i => run (.removeTrack i) | none => (st, "bad-op")
+      | ["appendmsg", i, e] => match parseNat? i, parseTEv e with
+        | some i, some e => run (.appendMsg i e) | _, _ => (st, "bad-op")
+      | ["removemsg", i, j] => match parseNat? i, parseNat? j with
+        | some i, some j => run (.removeMsg i j) | _, _ => (st, "bad-op")
+      | ["settime", i, j, t] => match parseNat? i, parseNat? j, parseNat? t with
+        | some i, some j, some t => run (.setTime i j t) | _, _, _ => (st, "bad-op")
+      | ["settype", n] => match parseInt? n with | some n => run (.setType n) | none => (st, "bad-op")
+      | ["merged"] => run .obsMerged
+      | _ => (st, "bad-op")
+    | "backend" => (st, runBackend args)
     | "preset" => ({ st with p := {} }, "ok")
     | "pfeed" => match parseInts args with
       | some bs => let (p, o) := pstep st.p (.feed bs); ({ st with p := p }, o.show)
